@@ -62,7 +62,7 @@ def check(ctx):
     exh = list(G.exhaustive(maxlen))
     rnd = random.Random(ctx.seed)
     rand = G.random_texts(rnd, 60000 if ctx.tier == "quick" else 600000)
-    texts = corpus + G.special_texts() + exh + rand
+    texts = C.uniq(corpus + G.special_texts() + exh + rand)
     ctx.log(f"{len(texts)} texts ({len(exh)} bounded-exhaustive over the 14-char alphabet, len <= {maxlen})")
     ucpath, uctab = G.uclass_table(ctx, texts, C)
     lines = [G.enc(t) for t in texts]
